@@ -51,6 +51,7 @@ class Content:
         self.info = []          # per position: None or (time, bad, rehash, justsynced)
         self.info_oldest = 0
         self.record_order = []  # sequence of record tags as met (diagnostics)
+        self.inode_spans = []   # (start, end, disk name, inode) of every file record's inode field in the decoded bytes
 
     # ------------------------------------------------------------ views
     def disk_of_map(self, idx):
@@ -215,7 +216,9 @@ def decode(data, strict=True):
             sec = r.b64()
             ns = r.b32()
             ns = NSEC_INVALID if ns == 0 else ns - 1
+            ino_at = r.p
             inode = r.b64()
+            c.inode_spans.append((ino_at, r.p, disk.name, inode))
             sub = r.bs()
             if not sub:
                 raise ContentError("null file")
